@@ -106,10 +106,17 @@ func check(c concCase, repeat int) (msg, discard string) {
 		return "", "compile-error"
 	}
 	want := model.Run(q, univ.Copy(c.Input.X), nil, fuel, maxOuts)
-	if d := want.Discard(); d != "" {
-		return "", d
+	if d := want.Discard(); strings.HasPrefix(d, "resource") || d == "fuel" {
+		return "", d // only the resource guards matter here; the model's language limits do not
 	}
-	base := run.Exec(code, univ.Copy(c.Input.X), steps, maxOuts)
+	// the baseline runs on its own compiled Code: the Code used concurrently
+	// below is fresh, so that lazily initialised per-Code state is first
+	// touched by several goroutines at once
+	baseCode, err := gojq.Compile(q)
+	if err != nil {
+		return "", "compile-error"
+	}
+	base := run.Exec(baseCode, univ.Copy(c.Input.X), steps, maxOuts)
 	if base.Budget {
 		return "", "budget"
 	}
@@ -120,6 +127,12 @@ func check(c concCase, repeat int) (msg, discard string) {
 	shared := univ.Copy(c.Input.X)
 	snapshot := univ.Copy(shared)
 	for round := 0; round < repeat; round++ {
+		if round > 0 {
+			// a fresh Code for every round
+			if code, err = gojq.Compile(q); err != nil {
+				return "", "compile-error"
+			}
+		}
 		var wg sync.WaitGroup
 		var mu sync.Mutex
 		var failure string
@@ -195,6 +208,7 @@ var templates = []string{
 	"try test(\"(\") catch .", "try test(\"[\") catch \"bad\"", "[.[]? | strings | try test(\"a(\") catch \"bad\"]", "try sub(\"(?<x\"; \"y\") catch .", "(test(\"a\"; \"x\"))?", "try ([match(\"*\"; \"g\")] | length) catch \"bad\"",
 	"[try test(\"(\") catch 1, try test(\"(\") catch 2]", "try capture(\"(?P<n\") catch .", "[test(\"a.b\"), test(\"a.b\"; \"s\")?, test(\"a.b\"; \"x\")?, test(\"A.B\"; \"i\")]", "try splits(\"+\") catch \"bad\"",
 	"ascii_downcase | test(\"b|c\")", "split(\"a\"; null)", "[.[]? | strings | test(\"^a\")]", "tostring | test(\"[0-9]+\")", "tojson | [match(\"[\\\\[\\\\]]\"; \"g\")] | length",
+	"builtins | length", "builtins | sort | .[-1]", "[builtins[] | strings] | length", "builtins | map(type) | unique", "[builtins, builtins] | map(length)", "builtins | index(\"yn/2\") != null",
 	"$ENV | length", "env | keys", "$__loc__", "[limit(3; repeat(1))]", "[range(5)] | map(. * 2)", "reduce range(10) as $i (0; . + $i)", "[foreach range(5) as $i (0; . + $i)]", "path(..)", "[.. | numbers]",
 	"def f: if . > 3 then . else . + 1 | f end; 0 | f", "[limit(5; recurse(. + 1))]?", "first(.[]?)", "isempty(.[]?)", "[.[]? | tojson | fromjson]", "@json", "@base64", "ltrimstr(\"a\")?", "\"\\(.)\"",
 }
